@@ -103,7 +103,9 @@ pub trait RiRefImpl {
 		if self.path().is_absolute() == other.path().is_absolute() {
 			loop {
 				match (self_segments.peek(), base_segments.peek()) {
-					(Some(a), Some(b)) if a.as_pct_str() == b.as_pct_str() => {
+					(Some(a), Some(b))
+						if crate::utils::pct_eq(a.as_pct_str(), b.as_pct_str()) =>
+					{
 						base_segments.next();
 						self_segments.next();
 					}
